@@ -25,8 +25,8 @@ sec65 = "### 6.5 Sensitivity: catalogued mutants (`tools/mutate.py Cnn`, quick t
     "C19 `children_length`, C13 `validate_ignores_external_removals`. C03 `loop_context_ignored` was masked by a recorded finding until that\n"
     "finding's predicate was narrowed (6.6); the seeded change C03_a is the same edit and is detected.\n"
     "The table is the catalogue's last full run (`mutants/RESULTS.txt` says when); the seeded changes of 6.6 are re-run against the final\n"
-    "tree. The anchors of all 155 mutants were re-checked against the final `/repo` (one had to be refreshed after a repair), and the
-catalogues of C01, C03 and C14 - the checks whose generators and predicates changed most at the end - were re-run on it: all detected.\n\n```\n" + mut + "```\n\n"
+    "tree. The anchors of all 155 mutants were re-checked against the final `/repo` (one had to be refreshed after a repair), and the\n"
+    "catalogues of C01, C03 and C14 - the checks whose generators and predicates changed most at the end - were re-run on it: all detected.\n\n```\n" + mut + "```\n\n"
 )
 rows = ["| id | property | change (from its meta.json) | quick tier of the property's check |", "|---|---|---|---|"]
 res = {}
